@@ -209,7 +209,7 @@ func genC03(g *Gen, tier string, emit func(op string, args ...string)) {
 	}
 	// every code -2..300 once through encode and authreq
 	for c := -2; c <= 300; c++ {
-		emit("encode", itoa(c), itoa(g.Intn(256)), hx(g.RandBytes(16)), hx([]byte("secret")), showAVPs(g.smallAVPs()))
+		emit("encode", itoa(c), itoa(g.Intn(256)), hxIn(g.RandBytes(16)), hxIn([]byte("secret")), showAVPs(g.smallAVPs()))
 	}
 	// Encode against the formula (not only the predicates) with long secrets and packets up to the limit,
 	// for every hashed code; totals beyond the limit must be refused by Encode as well
@@ -226,14 +226,14 @@ func genC03(g *Gen, tier string, emit func(op string, args ...string)) {
 					as = append(as, avp{g.Pick(1, 18, 26, 79), g.RandBytes(n - 2)})
 					left -= n
 				}
-				emit("encode", itoa(code), itoa(g.Intn(256)), hx(g.RandBytes(16)), hx(g.RandBytes(sl)), showAVPs(as))
+				emit("encode", itoa(code), itoa(g.Intn(256)), hxIn(g.RandBytes(16)), hxIn(g.RandBytes(sl)), showAVPs(as))
 			}
 		}
 	}
 	for i := 0; i < n; i++ {
 		switch g.Intn(10) {
 		case 0, 1:
-			emit("encode", itoa(g.code()), itoa(g.Intn(256)), hx(g.Bytes(16)), hx(g.secret()), showAVPs(g.smallAVPs()))
+			emit("encode", itoa(g.code()), itoa(g.Intn(256)), hxIn(g.Bytes(16)), hxIn(g.secret()), showAVPs(g.smallAVPs()))
 		case 2, 3, 4:
 			rc := validCodes("req")[g.Intn(5)]
 			pc := validCodes("resp")[g.Intn(8)]
@@ -247,7 +247,7 @@ func genC03(g *Gen, tier string, emit func(op string, args ...string)) {
 			if len(sec) == 0 && g.Chance(3, 4) {
 				sec = []byte("x")
 			}
-			emit("exchange", itoa(rc), itoa(g.Intn(256)), hx(g.Bytes(16)), hx(sec), showAVPs(g.smallAVPs()),
+			emit("exchange", itoa(rc), itoa(g.Intn(256)), hxIn(g.Bytes(16)), hxIn(sec), showAVPs(g.smallAVPs()),
 				itoa(pc), showAVPs(g.smallAVPs()), itoa(g.Intn(4096)), itoa(g.Pick(1, 2, 128, 255, g.Range(1, 255))))
 		case 5, 6:
 			// authentic or damaged response datagrams
@@ -265,7 +265,7 @@ func genC03(g *Gen, tier string, emit func(op string, args ...string)) {
 			if g.Chance(1, 5) {
 				sec = g.secret()
 			}
-			emit("authresp", hx(w), hx(rw), hx(sec))
+			emit("authresp", hxIn(w), hxIn(rw), hxIn(sec))
 		case 7, 8:
 			sec := g.secret()
 			req := &radius.Packet{Code: radius.Code(g.Pick(1, 4, 12, 40, 43, 4, 40, 43, 2, 5, 13, g.Intn(256))), Identifier: byte(g.Intn(256)), Secret: sec}
@@ -289,9 +289,9 @@ func genC03(g *Gen, tier string, emit func(op string, args ...string)) {
 			if g.Chance(1, 6) {
 				sec = g.secret()
 			}
-			emit("authreq", hx(rw), hx(sec))
+			emit("authreq", hxIn(rw), hxIn(sec))
 		case 9:
-			emit("new", itoa(g.code()), hx(g.secret()))
+			emit("new", itoa(g.code()), hxIn(g.secret()))
 		}
 	}
 	// New against a scripted entropy stream, with and without a failing Read
@@ -311,20 +311,20 @@ func genC03(g *Gen, tier string, emit func(op string, args ...string)) {
 			if err != nil || rw == nil {
 				continue
 			}
-			emit("authresp", hx(w), hx(rw), hx(sec))
+			emit("authresp", hxIn(w), hxIn(rw), hxIn(sec))
 			// signed with a prefix of the secret only / with no secret at all: must be rejected
 			for _, cut := range []int{0, sl / 2, sl - 1} {
 				forged := append([]byte{}, w...)
 				copy(forged[4:20], md5sum(w[:4], rw[4:20], w[20:], sec[:cut]))
-				emit("authresp", hx(forged), hx(rw), hx(sec))
+				emit("authresp", hxIn(forged), hxIn(rw), hxIn(sec))
 			}
 			last := append([]byte{}, sec...)
 			last[len(last)-1] ^= 1
-			emit("authresp", hx(w), hx(rw), hx(last))
+			emit("authresp", hxIn(w), hxIn(rw), hxIn(last))
 			acct := &radius.Packet{Code: 4, Identifier: 1, Secret: sec, Attributes: toAttributes(sizedAVPs(rl - 20))}
 			if aw, err := acct.Encode(); err == nil {
-				emit("authreq", hx(aw), hx(sec))
-				emit("authreq", hx(aw), hx(last))
+				emit("authreq", hxIn(aw), hxIn(sec))
+				emit("authreq", hxIn(aw), hxIn(last))
 			}
 		}
 	}
@@ -341,14 +341,14 @@ func genC03(g *Gen, tier string, emit func(op string, args ...string)) {
 			for _, x := range []byte{1, 0x80, 0xff} {
 				t := append([]byte{}, w...)
 				t[i] ^= x
-				emit("authresp", hx(t), hx(rw), hx(sec))
+				emit("authresp", hxIn(t), hxIn(rw), hxIn(sec))
 			}
-			emit("authresp", hx(w[:i]), hx(rw), hx(sec))
+			emit("authresp", hxIn(w[:i]), hxIn(rw), hxIn(sec))
 		}
 		for i := range rw {
 			t := append([]byte{}, rw...)
 			t[i] ^= 1
-			emit("authresp", hx(w), hx(t), hx(sec))
+			emit("authresp", hxIn(w), hxIn(t), hxIn(sec))
 		}
 	}
 }
@@ -496,13 +496,13 @@ func genC04(g *Gen, tier string, emit func(op string, args ...string)) {
 	}
 	for r := 0; r < reps; r++ {
 		for n := 0; n <= 140; n++ {
-			emit("uprt", hx(g.plaintext(n)), hx(g.pwSecret()), hx(g.ra()))
+			emit("uprt", hxIn(g.plaintext(n)), hxIn(g.pwSecret()), hxIn(g.ra()))
 			if r%3 == 0 {
-				emit("newup", hx(g.plaintext(n)), hx(g.pwSecret()), hx(g.ra()))
+				emit("newup", hxIn(g.plaintext(n)), hxIn(g.pwSecret()), hxIn(g.ra()))
 			}
 		}
 		for n := 0; n <= 300; n += 1 + r%3 {
-			emit("up", hx(g.RandBytes(n)), hx(g.pwSecret()), hx(g.ra()))
+			emit("up", hxIn(g.RandBytes(n)), hxIn(g.pwSecret()), hxIn(g.ra()))
 		}
 	}
 }
@@ -582,9 +582,9 @@ func genC11(g *Gen, tier string, emit func(op string, args ...string)) {
 	}
 	for r := 0; r < reps; r++ {
 		for n := 0; n <= 260; n++ {
-			emit("tprt", hx(g.plaintext(n)), hx(g.salt()), hx(g.pwSecret()), hx(g.ra()))
+			emit("tprt", hxIn(g.plaintext(n)), hxIn(g.salt()), hxIn(g.pwSecret()), hxIn(g.ra()))
 			if r%2 == 0 {
-				emit("newtp", hx(g.plaintext(n)), hx(g.salt()), hx(g.pwSecret()), hx(g.ra()))
+				emit("newtp", hxIn(g.plaintext(n)), hxIn(g.salt()), hxIn(g.pwSecret()), hxIn(g.ra()))
 			}
 		}
 		for n := 0; n <= 300; n++ {
@@ -592,7 +592,7 @@ func genC11(g *Gen, tier string, emit func(op string, args ...string)) {
 			if n > 0 && g.Chance(5, 6) {
 				a[0] |= 0x80
 			}
-			emit("tp", hx(a), hx(g.pwSecret()), hx(g.ra()))
+			emit("tp", hxIn(a), hxIn(g.pwSecret()), hxIn(g.ra()))
 		}
 		// ciphertexts whose DECRYPTED length octet is chosen exactly (boundaries of the embedded-length check):
 		// c1[0] = want ^ MD5(secret | authenticator | salt)[0]
@@ -603,7 +603,7 @@ func genC11(g *Gen, tier string, emit func(op string, args ...string)) {
 				a[0] |= 0x80
 				b1 := md5sum(sec, ra, a[:2])
 				a[2] = byte(want) ^ b1[0]
-				emit("tp", hx(a), hx(sec), hx(ra))
+				emit("tp", hxIn(a), hxIn(sec), hxIn(ra))
 			}
 		}
 		// decoder fed with genuine encodings whose embedded length was made inconsistent
@@ -616,7 +616,7 @@ func genC11(g *Gen, tier string, emit func(op string, args ...string)) {
 				continue
 			}
 			a[2] ^= byte(g.Intn(256))
-			emit("tp", hx(a), hx(sec), hx(ra))
+			emit("tp", hxIn(a), hxIn(sec), hxIn(ra))
 		}
 	}
 	_ = binary.BigEndian
